@@ -324,15 +324,17 @@ func (p vSimPool) StartContainer(it arvados.InstanceType, ctr arvados.Container)
 	if w := pick; w != 0 {
 		s.wk[w].st = "running"
 		s.wk[w].starting[c] = true
-		snap := []string{}
+		bad := []int{}
 		for x := 1; x <= s.nw; x++ {
-			snap = append(snap, s.ib[x])
+			if s.ib[x] == "hold" || s.ib[x] == "drain" {
+				bad = append(bad, x)
+			}
 		}
 		qs, qp := "absent", 0
 		if e := s.q[c]; e != nil && e.in {
 			qs, qp = e.state, e.prio
 		}
-		s.ev(map[string]interface{}{"ev": "startcall", "c": c, "w": w, "snap": snap, "qs": qs, "qp": qp})
+		s.ev(map[string]interface{}{"ev": "startcall", "c": c, "w": w, "bad": bad, "qs": qs, "qp": qp})
 		return true
 	}
 	return false
